@@ -122,7 +122,18 @@ def lin_scenarios(S) -> list[tuple[str, tuple, list[list[tuple]]]]:
         ("finish-vs-kill", (S.RUNNING, "rA"), [[(S.SUCCESS, "rA")], [(S.KILLED, "rA"), (S.REROUTED, "rA")]]),
         ("retry-then-two-claims", (S.RUNNING, "rA"), [[(S.RETRY, "rA"), (S.PENDING, "rA")], [(S.PENDING, "rB")]]),
         ("three-claims", (S.REROUTED, None), [[(S.PENDING, "rA")], [(S.PENDING, "rB")], [(S.PENDING, "rC")]]),
+        # a stale owner against a runner it does not own the invocation from any more / never did
+        ("foreign-kill", (S.RUNNING, "rB"), [[(S.KILLED, "rA"), (S.REROUTED, "rA")], [(S.SUCCESS, "rB")]]),
+        # ABA: while the owner's request is between its read and its write, the invocation is recovered and claimed by
+        # another runner and comes back to the SAME status under a new owner (directed schedules, see run_lin)
+        ("finish-vs-recover-and-reclaim", (S.RUNNING, "rA"),
+         [[(S.SUCCESS, "rA")], [(S.RUNNING_RECOVERY, "rR"), (S.REROUTED, "rR"), (S.PENDING, "rB"), (S.RUNNING, "rB")]]),
+        ("start-vs-recover-and-reclaim", (S.PENDING, "rA"),
+         [[(S.RUNNING, "rA")], [(S.PENDING_RECOVERY, "rR"), (S.REROUTED, "rR"), (S.PENDING, "rB")]]),
     ]
+
+
+DIRECTED = {"finish-vs-recover-and-reclaim", "start-vs-recover-and-reclaim"}
 
 
 def check_linearizable(drv: LeanDriver, start, threads_ops, results, final) -> tuple[bool, Any]:
@@ -177,7 +188,18 @@ def run_lin(ctx: Ctx, w: World, drv: LeanDriver) -> None:
 
         bound = 2 if ctx.quick else 3
         cap = 150 if ctx.quick else 1500
-        runs = explore(run_one, bound, cap) if len(tops) == 2 else (run_one(RandomChooser(ctx.rng, 0.6)) for _ in range(40 if ctx.quick else 300))
+        if name in DIRECTED:
+            # one thread is paused after each of its k scheduling steps while the other runs to completion, both ways round
+            def directed(run_one=run_one):
+                n0 = len(run_one(PrefixChooser([0] * 5000)).choices)
+                for k in range(n0 + 1):
+                    yield run_one(PrefixChooser([0] * k + [1] * 5000))
+                n1 = len(run_one(PrefixChooser([1] * 5000)).choices)
+                for k in range(0, n1 + 1, 1 if not ctx.quick else max(1, n1 // 12)):
+                    yield run_one(PrefixChooser([1] * k + [0] * 5000))
+            runs = directed()
+        else:
+            runs = explore(run_one, bound, cap) if len(tops) == 2 else (run_one(RandomChooser(ctx.rng, 0.6)) for _ in range(40 if ctx.quick else 300))
         for run in runs:
             total += 1
             ctx.count()
